@@ -194,6 +194,7 @@ class Hist:
         self.n_items = 0
         self.flags = set()
         self.falsy_items = False
+        self.payload = None
         self.forgetful = False
         self.script_ops = 0
         self.dead_addrs = set()      # addresses of tokens that have been freed (forgetful histories)
@@ -239,6 +240,22 @@ def weights(profile):
 
 
 _TRAY = {}
+
+
+_EQV = {}
+
+
+def equal_value_class(Item):
+    c = _EQV.get(Item)
+    if c is None:
+        class Part(Item):
+            def __eq__(self, other):
+                return isinstance(other, Part) and other.id == self.id
+
+            def __hash__(self):
+                return hash(self.id)
+        c = _EQV[Item] = Part
+    return c
 
 
 def empty_tray_class(Item):
@@ -436,6 +453,12 @@ def client(env, T, cid, rng, nops, W, H, mode, mon, other):
             # hostile but valid payloads: in one history out of eight some items are empty containers (falsy: __len__ == 0);
             # a store may test `item is None`, never the truth value of an item
             it = (empty_tray_class(Item) if H.falsy_items and rng.random() < 0.4 else Item)(f"c{cid}.{H.n_items}")
+            if H.payload == "same_ids" and rng.random() < 0.6:
+                # ids are the caller's business: several distinct objects may carry the same id (part numbers)
+                it.id = f"part-{rng.randint(0, 2)}"
+            elif H.payload == "equal_values" and rng.random() < 0.6:
+                # distinct objects that compare equal (a value class with __eq__): a store must tell them apart by identity
+                it = equal_value_class(Item)(f"part-{rng.randint(0, 1)}")
             it.length = getattr(T, "item_length", 1)
             it.colour = rng.choice(COLOURS)
             T.put(tok, it, rng)
@@ -585,6 +608,7 @@ def run_case(seed, kind=None, profile=None, mode=None, nops=None):
     W = weights(profile)
     rng2 = random.Random(seed ^ 0x5EED)      # decisions added later draw from their own stream (older histories stay what they were)
     H.forgetful = rng2.random() < mode.get("forgetful", 0.3)
+    H.payload = mode.get("payload") or rng2.choice((None,) * 10 + ("same_ids",))
     T.sh.forget_items = H.forgetful and not mode.get("illformed")
     for c in range(ncl):
         env.process(client(env, T, c, random.Random(rng.random()), nops, W, H, mode, mon, other))
